@@ -41,15 +41,32 @@ def summary(v):
     exits, effects = [], []
     local_stores = []      # (position among the effects, statement, container name, effect item)
 
+    tries = {}
+
     def loop_ctx(st):
-        return tuple(v.show(v.term(p.iter, at=p))[:200] if isinstance(p, ast.For) else "while"
-                     for p, f in v.cfg.enclosing(st) if isinstance(p, (ast.For, ast.While)))
+        """the loops and the try / except arms a statement sits in (part of its identity: an effect inside a handler is
+        another thing than the same effect outside)"""
+        out = []
+        for p, f in v.cfg.enclosing(st):
+            if isinstance(p, ast.For):
+                out.append(v.show(v.term(p.iter, at=p))[:200])
+            elif isinstance(p, ast.While):
+                out.append("while")
+            elif isinstance(p, ast.Try):
+                out.append(f"try#{tries.setdefault(id(p), len(tries))}:{f}")
+            elif isinstance(p, ast.ExceptHandler):
+                out.append("except " + (ast.unparse(p.type) if p.type is not None else "") + (" as e" if p.name else ""))
+        return tuple(out)
 
     for st in v.stmts():
         if isinstance(st, (ast.FunctionDef, ast.AsyncFunctionDef, ast.ClassDef)):
             continue
         if isinstance(st, ast.Try):
-            raise NotSummarisable("try statement")
+            # exception flow is not modelled: the statements of the body, of every handler and of else / finally are
+            # summarised in place (each carries its try / except position); the same calls raise the same exceptions
+            effects.append(("try", ";".join((ast.unparse(h.type) if h.type is not None else "") for h in st.handlers) +
+                            f"|else={bool(st.orelse)}|finally={bool(st.finalbody)}", full_term(v, st), [], loop_ctx(st)))
+            continue
         if isinstance(st, (ast.If, ast.Pass)):
             continue
         cond = full_term(v, st)
@@ -66,6 +83,12 @@ def summary(v):
             flat = []
             for t in targets:
                 flat += _flatten(t)
+            pairwise = None
+            if isinstance(st, ast.Assign) and len(targets) == 1 and isinstance(targets[0], (ast.Tuple, ast.List)) and \
+                    isinstance(st.value, (ast.Tuple, ast.List)) and len(targets[0].elts) == len(st.value.elts) and \
+                    not any(isinstance(e, ast.Starred) for e in list(targets[0].elts) + list(st.value.elts)) and \
+                    all(not isinstance(e, (ast.Tuple, ast.List)) for e in targets[0].elts):
+                pairwise = {id(t_): e_ for t_, e_ in zip(targets[0].elts, st.value.elts)}      # a, b = x, y
             for t in flat:
                 if isinstance(t, ast.Name):
                     prev_ = ev._name_before(t.id, v.cfg.node(st), None) if isinstance(st, ast.AugAssign) else None
@@ -94,11 +117,19 @@ def summary(v):
                 else:
                     raise NotSummarisable(f"store target {type(t).__name__}")
                 kind = "aug:" + type(st.op).__name__ if isinstance(st, ast.AugAssign) else "store"
-                effects.append((kind, "", cond, tt + [v.term(st.value, at=st)], lc))
+                rhs = pairwise[id(t)] if pairwise and id(t) in pairwise else st.value
+                effects.append((kind, "", cond, tt + [v.term(rhs, at=st)], lc))
         elif isinstance(st, ast.Expr):
             if isinstance(st.value, ast.Constant):
                 continue
-            effects.append(("expr", "", cond, [v.term(st.value, at=st)], lc))
+            item = ("expr", "", cond, [v.term(st.value, at=st)], lc)
+            if isinstance(st.value, ast.Call) and any(k.arg == "out" and isinstance(k.value, ast.Name) and
+                                                     k.value.id in ev._local_names and k.value.id not in ev._params
+                                                     for k in st.value.keywords):
+                # fills a local buffer: an effect only if that buffer does not flow into an exit / effect
+                local_stores.append((len(effects), st, None, item))
+                continue
+            effects.append(item)
         elif isinstance(st, ast.For):
             effects.append(("for", ast.dump(st.target), cond, [v.term(st.iter, at=st)], lc))
             if st.orelse:
@@ -128,7 +159,7 @@ def summary(v):
     extra = []
     for pos, st, name, item in local_stores:
         after = ev._t(ast.Name(id=name, ctx=ast.Load()), None, None) if False else None
-        stored = v.ctx.mk(("store",), (item[3][0], item[3][1], item[3][2]))
+        stored = v.ctx.mk(("store",), (item[3][0], item[3][1], item[3][2])) if name is not None else item[3][0]
         if not (stored.atom_ids() & used):
             extra.append((pos, item))
     for pos, item in sorted(extra, key=lambda x: -x[0]):
@@ -236,7 +267,16 @@ def _same_terms(va, ta, tb):
 
 def _same_cond(va, ca, cb):
     from .lib import cond_equiv
-    return cond_equiv(va, ca, cb)
+    if va.eq(ca, cb):
+        return True
+    # lengths that are compared with numbers are integer quantities (bool(x) == (len(x) != 0) for sized objects)
+    lens = []
+    for t in (ca, cb):
+        for a in va.ctx.all_atoms(t):
+            hd = va.ctx.atoms[a][0]
+            if hd[0] == "call" and hd[1] == "len" and not any(va.eq(va.ctx.var(a), x) for x in lens):
+                lens.append(va.ctx.var(a))
+    return cond_equiv(va, ca, cb, lens[:3], lo=0)
 
 
 def _same_items(va, a, b):
@@ -300,11 +340,52 @@ def equivalent(repo_cur, repo_ref, qual):
                         for cq, ci in repo_cur.classes.items():
                             if cq.split(".")[-1] == cls_ and m_ in ci.methods and repo_cur.is_new_function(ci.methods[m_].qual):
                                 return False, f"call to the new method {hd[1]} could not be inlined"
-    if len(ea) != len(eb):
-        return False, f"{len(ea)} effects against {len(eb)} in the reference form"
-    for k, (a, b) in enumerate(zip(ea, eb)):
-        if not _same_items(va, a, b):
-            return False, f"effect #{k} ({a[0]}) differs"
+    from .lib import cond_implies as _imp
+    false_ = ctx.mk(("const", False))
+    # effects: `x.f = a if c else b` is `if c: x.f = a else: x.f = b` - every effect is split into the gphi-free alternatives
+    # of its terms; then the two sequences must match item by item, where two effects that can never both happen in one
+    # run (mutually exclusive conditions) may stand in either order
+    def expand_effects(effects, v):
+        out = []
+        for it in effects:
+            if not it[3]:
+                out.append(it)
+                continue
+            tup = ctx.mk(("tuple",), list(it[3]))
+            alts = alternatives(v, tup)
+            if alts is None or len(alts) == 1:
+                out.append(it)
+                continue
+            for g, x in alts:
+                cnd = v.ev._bool("and", [it[2], g])
+                if _imp(v, cnd, false_):
+                    continue          # this alternative can never be the one (its gate contradicts the reach condition)
+                out.append((it[0], it[1], cnd, list(ctx.args_of(x)), it[4]))
+        # identical neighbours (same kind, terms and position) under different conditions are one effect
+        merged = []
+        for it in out:
+            if merged and merged[-1][0] == it[0] and merged[-1][1] == it[1] and merged[-1][4] == it[4] and \
+                    len(merged[-1][3]) == len(it[3]) and all(ctx.eq(x, y) for x, y in zip(merged[-1][3], it[3])):
+                merged[-1] = (it[0], it[1], v.ev._bool("or", [merged[-1][2], it[2]]), it[3], it[4])
+            else:
+                merged.append(it)
+        return merged
+    ea, eb = expand_effects(ea, va), expand_effects(eb, vb)
+    rest = list(eb)
+    for k, a in enumerate(ea):
+        hit = None
+        for j, b in enumerate(rest):
+            if _same_items(va, a, b):
+                if all(_imp(va, va.ev._bool("and", [b[2], x[2]]), false_) for x in rest[:j]):
+                    hit = j
+                break_ = False
+                if hit is not None:
+                    break
+        if hit is None:
+            return False, f"effect #{k} ({a[0]}) has no counterpart in the reference form (or not at this position)"
+        rest.pop(hit)
+    if rest:
+        return False, f"the reference form has {len(rest)} more effect(s), first: {rest[0][0]}"
     # exits: every exit of one form is matched by an exit of the other with the same kind / type / value whose conditions
     # together are the same predicate
     def grouped(exits):
@@ -327,6 +408,40 @@ def equivalent(repo_cur, repo_ref, qual):
         return not (hd and hd[0] == "const" and hd[1] is None)
     xa = [it for it in xa if not_none_return(it)]
     xb = [it for it in xb if not_none_return(it)]
+
+    # a returned truth value V under condition c is "True under c and V, False under c and not V": `return a and b` and
+    # `if a: return b` / `return False` are the same function
+    def split_truth(exits, v):
+        out = []
+        t_, f_ = ctx.mk(("const", True)), ctx.mk(("const", False))
+        for it in exits:
+            if it[0] == "return" and len(it[3]) == 1 and v.ev._is_truth_value(it[3][0]) and \
+                    not ((ctx.head_of(it[3][0]) or ("",))[0] == "const"):
+                val = it[3][0]
+                out.append((it[0], it[1], v.ev._bool("and", [it[2], val]), [t_], it[4]))
+                out.append((it[0], it[1], v.ev._bool("and", [it[2], v.ev._not(val)]), [f_], it[4]))
+            else:
+                out.append(it)
+        return out
+    if any(it[0] == "return" and len(it[3]) == 1 and (ctx.head_of(it[3][0]) or ("",))[0] == "const" and
+           isinstance(ctx.head_of(it[3][0])[1], bool) for it in xa + xb):
+        xa, xb = split_truth(xa, va), split_truth(xb, vb)
+    # one `return` of a gated alternative and several returns of its alternatives are the same thing: every returned value
+    # is split into its gphi-free alternatives before the exits are grouped by value
+    def expanded(exits, v):
+        out = []
+        for it in exits:
+            if it[0] == "return" and len(it[3]) == 1:
+                alts = alternatives(v, it[3][0])
+                if alts is not None and len(alts) > 1:
+                    for g, x in alts:
+                        cnd = v.ev._bool("and", [it[2], g])
+                        if not _imp(v, cnd, false_):
+                            out.append((it[0], it[1], cnd, [x], it[4]))
+                    continue
+            out.append(it)
+        return out
+    xa, xb = expanded(xa, va), expanded(xb, vb)
     ga, gb = grouped(xa), grouped(xb)
     if len(ga) != len(gb):
         # values may differ only by where their gated alternatives sit: compare after pairing by kind
